@@ -7,6 +7,7 @@ Inductive c10case :=
           (built : N) (conn : list (list Z)) (ignore_space : bool) (space_res : N) (mgl : N)
           (obs : list sentobs) (sents : list (N * bool))     (* one text edit of one definition file: the whole build and the tokenization are compared with the text-level model *)
 | C10Bigram (id : N) (edited : N) (dual : bool) (built : N) (sents : list (N * bool))   (* the dictionary with a raw/dual connector from bigram files, valid or with one text edit *)
+| C10BigMap (id : N) (nl nr : N) (outcome : N) (sents : list (N * bool))   (* a VALID permutation of all ids of a connector with 65536 ids on one side: must be accepted *)
 | C10Map (id : N) (nl nr : N) (lmap rmap : list N) (outcome : N) (sents : list (N * bool)).   (* an arbitrary mapping sequence on an accepted dictionary *)  (* one text edit of one definition file: outcomes only *)
 
 (** the definition files at text level: every file parsed by its model, then the structured model *)
@@ -31,6 +32,7 @@ Definition c10_corr (c : c10case) : bool :=
       end
   | C10Bigram _ _ _ _ _ => true
   | C10Map _ nl nr l r out _ => (res_code (check_map (N.to_nat nl) (N.to_nat nr) l r) =? out)%N
+  | C10BigMap _ _ _ out _ => (out =? 0)%N       (* the model accepts every valid permutation: c06_parse_accepts_iff *)
   end.
 
 (** never a panic while building; an accepted dictionary never panics while tokenizing, except for
@@ -43,6 +45,7 @@ Definition c10_oracle_all (c : c10case) : bool :=
   | C10Text _ _ _ _ _ _ _ built _ _ _ _ _ sents => negb (built =? 2)%N && forallb (fun s => negb (fst s =? 2)%N) sents
   | C10Bigram _ _ _ built sents => negb (built =? 2)%N && forallb (fun s => negb (fst s =? 2)%N) sents
   | C10Map _ _ _ _ _ out sents => negb (out =? 2)%N && forallb (fun s => negb (fst s =? 2)%N) sents
+  | C10BigMap _ _ _ out sents => negb (out =? 2)%N && forallb (fun s => negb (fst s =? 2)%N) sents
   end.
 Definition c10_known (c : c10case) : bool :=
   negb (c10_oracle_all c)
@@ -53,6 +56,7 @@ Definition c10_known (c : c10case) : bool :=
      | C10Text _ _ _ _ _ _ _ built _ _ _ _ _ sents => negb (built =? 2)%N && forallb (fun s => negb (fst s =? 2)%N || snd s) sents
      | C10Bigram _ _ _ built sents => negb (built =? 2)%N && forallb (fun s => negb (fst s =? 2)%N || snd s) sents
      | C10Map _ _ _ _ _ out sents => negb (out =? 2)%N && forallb (fun s => negb (fst s =? 2)%N || snd s) sents
+     | C10BigMap _ _ _ out sents => negb (out =? 2)%N && forallb (fun s => negb (fst s =? 2)%N || snd s) sents
      end.
 
 Definition c10_nontrivial (c : c10case) : bool :=
@@ -61,6 +65,7 @@ Definition c10_nontrivial (c : c10case) : bool :=
   | C10Text _ _ _ _ _ _ _ built _ _ _ _ _ _ => (built =? 1)%N
   | C10Bigram _ e _ built _ => (built =? 1)%N || (e =? 0)%N
   | C10Map _ _ _ _ _ out _ => (out =? 1)%N
+  | C10BigMap _ _ _ _ _ => true
   end.
 
 Definition c10_report (cases : list c10case) : list N * list N * list N * N :=
